@@ -59,6 +59,13 @@ int EvalExpression::run(AsmContext *asm_context, Var &answer, bool is_paren)
       // This is probably the x(r12) case.. so this is actually okay.
       if (need_symbol(count))
       {
+        // Inside parentheses there is no instruction syntax to hand back.
+        if (is_paren == true)
+        {
+          print_error_unexp(asm_context, token);
+          return -1;
+        }
+
         tokens_push(asm_context, token, token_type);
         break;
       }
